@@ -18,6 +18,7 @@ SETUP = '''
 (defmacro to-setv [x] `(setv ~x 2))
 (defmacro to-atom [] 5)
 (defmacro to-list [x] [x x])
+(defmacro ident [x] x)
 (defmacro self-loop [n] (if (> n 0) `(self-loop ~(- n 1)) "done"))
 (defmacro to-dotted [x] `(m.c0 ~x))
 '''
@@ -86,6 +87,16 @@ MISC = [
     ("(c0)", "ERROR", "ERROR"),
     ("(f (c0 1))", "(f (c0 1))", "(f (c0 1))"),
 ]
+# core forms are left as they are, whatever their implementation hands to the compiler (a Result or a bare ast node),
+# directly and at the end of a user-macro chain
+CORE_FORMS = ["(assert x)", "(break)", "(continue)", "(return)", "(return 1)", "(global g)", "(nonlocal x)", "(lfor x xs x)", "(dfor x xs x x)", "(gfor x xs x)", "(sfor x xs x)",
+              "(+)", "(*)", "(and)", "(or)", "(setv)", "(del)", "(global)", "(+ 1 1)", "(do)", "(quote x)", "(fn [] 1)", "(while x)", "(try x (except []))", "(with [a b] c)",
+              "(import m)", "(defclass C [])", "(match x 1 2)", "(raise)", "(yield)", "(await x)", "(cut x 1)", "(get x 1)", "(. a b)", "(for [x xs] x)",
+              "(defn f [] 1)", "(not x)", "(in a b)", "(deftype T int)", "(annotate x int)", "(let [a 1] a)", "(eval-when-compile)", "(pragma)", "(chainc a < b)", "(setx a 1)",
+              "(if a b c)"]
+for _f in CORE_FORMS:
+    MISC.append((_f, _f, _f))
+    MISC.append(("(ident %s)" % _f, _f, _f))
 N_MISC = len(MISC)
 
 
@@ -165,7 +176,8 @@ def spec(tier, seed):
         "grade": "D", "functions_encoded": ["hy.core.util.macroexpand / macroexpand-1 / _macroexpand", "hy.macros.macroexpand (once / result_ok)"],
         "bounds": "a chain of 5 user macros expanding into one another (with splices and keyword arguments), every start and step count; %d further forms: non-macro heads, non-expressions, "
                   "empty expression, macros returning atoms and lists, expansion into a Hy-level core macro (when) and into a result macro (setv), direct result macros, a self-recursive "
-                  "macro, a macro call in head / argument position, wrong arity" % N_MISC,
+                  "macro, a macro call in head / argument position, wrong arity, and %d core forms (every kind of core implementation: returning a Result, a bare ast node, "
+                  "zero-argument operators, comprehensions) given directly and at the end of a user-macro chain" % (N_MISC, len(CORE_FORMS)),
         "outside": "macro environments passed explicitly (:macros); local macros", "stubs": ["runs executed under crosshair.tracers.NoTracing"],
         "assumptions": ["expected expansions written by hand"],
     }
